@@ -98,7 +98,7 @@ class Gen:
             return ["abs", "exp", "sigmoid"]
         if self.mode in ("arith", "tropical"):
             return ["neg", "abs", "exp", "tanh"]
-        return ["neg", "abs", "exp", "sigmoid", "tanh", "log1p_abs", "sqrt_abs", "reciprocal_exp"]
+        return ["neg", "abs", "exp", "sigmoid", "tanh", "log1p_abs", "sqrt_abs", "reciprocal_exp", "log_shift", "lgamma_shift", "atanh_half", "pos"]
 
     def ops_red(self):
         if self.mode == "arith":
@@ -250,6 +250,12 @@ class Gen:
             return ("un", "log1p", (), ("un", "abs", (), e))
         if op == "sqrt_abs":
             return ("un", "sqrt", (), ("un", "abs", (), e))
+        if op == "log_shift":
+            return ("un", "log", (), ("bin", "add", (), ("un", "abs", (), e), ("num", 0.5, "real")))
+        if op == "lgamma_shift":
+            return ("un", "lgamma", (), ("bin", "add", (), ("un", "abs", (), e), ("num", 0.5, "real")))
+        if op == "atanh_half":
+            return ("un", "atanh", (), ("bin", "mul", (), ("un", "tanh", (), e), ("num", 0.5, "real")))
         if op == "reciprocal_exp":
             # reciprocal clips at the float maximum by design; keep its argument away from 0
             return ("un", "reciprocal", (), ("bin", "add", (), ("un", "exp", (), e), ("num", 0.5, "real")))
